@@ -172,8 +172,8 @@ def check(run):
                       "'event sent' carries the event, under the same condition as the queueing", 'attribute or condition differs', s.node)
 
     from . import c05
-    c05.rules_send(run, 'C10', '.7')
-    rules_delivery(run, 'C10', '.3')
+    run.guard(c05.rules_send, run, 'C10', '.7')
+    run.guard(rules_delivery, run, 'C10', '.3')
 
     r = run.rule('C10.4', 'fail-fast: the property listener queues the meta-event, executes the property interpreter and raises PropertyStatechartError when it '
                           'is final, on every path; no handler can intercept it')
@@ -192,7 +192,7 @@ def check(run):
                   'raise iff the property interpreter is final after executing', 'condition is %s' % guard_atoms(rz[0]), rz[0])
         for c in [qs[0], xs[0]]:
             run.check(dotted(c.func.value) == 'self._interpreter', r, li.short, 'acts on the property interpreter', 'receiver differs', c)
-    swallow_check(run, r, ['PropertyStatechartListener.__call__'], 'PropertyStatechartError', 'property listener')
+    run.guard(swallow_check, run, r, ['PropertyStatechartListener.__call__'], 'PropertyStatechartError', 'property listener')
 
     r = run.rule('C10.5', 'both branches of bind_property_statechart install SynchronizedClock(self); SynchronizedClock.time returns the time of the interpreter '
                           'it was built with')
